@@ -21,7 +21,7 @@ ODIR = os.path.join(OUT, PID)
 
 # family -> (Lo, Hi, W) ; Hi beyond the family's size is cut by the spec (Last)
 BIG = 10 ** 6
-def families(tier):
+def _families(tier):
     q = tier == "quick"
     return {
         "r64b":     (0, BIG, 4),                       # ALL octet strings of length <= 2 (65793)
@@ -35,9 +35,17 @@ def families(tier):
         "mpi":      (0, BIG, 2),
         "mpidec":   (0, BIG, 1),
         "s2kcount": (0, BIG, 1),                       # all 256 count octets
-        "pkt":      (0, 16 * 24 - 1 if q else 16 * 80 - 1, 2 if q else 4),
+        "pkt":      (0, 18 * 24 - 1 if q else 18 * 80 - 1, 2 if q else 4),
         "sigdec":   (0, BIG, 2),
     }
+
+def families(tier):
+    f = _families(tier)
+    if tier != "quick":
+        f["r64r"] = (0, 29999, 4)                      # 30000 pseudo-random strings of length 3..64
+        f["lenx"] = (0, 70000 - 8501, 4)               # every length 8501..70000
+        f["mpix"] = (0, 70000 - 1101, 4)               # every integer 1101..70000
+    return f
 
 def cfg_text(fam, lo, hi, w, seed):
     return ("SPECIFICATION Spec\nCONSTANTS\n Family = \"%s\"\n Lo = %d\n Hi = %d\n W = %d\n Seed = %d\n"
@@ -172,10 +180,15 @@ def check_trace(name, events):
         rp = os.path.join(ODIR, "rejected-%s-%d.json" % (name, len(res["viol"])))
         with open(rp, "w") as f:
             json.dump({"property": PID, "key": event_key(bad), "case": {"kind": "B", "event": bad}}, f)
-        short = {k: v for k, v in bad.items() if k != "md"}
-        mdin = [m.get("in") if m.get("full") else {"n": m.get("n"), "head": m.get("head")} for m in bad.get("md", [])]
-        what = ("%s: event #%d is not what PGPFrame.tla prescribes (hash input framing / hash function / use of the digest): %s\n"
-                "    octets handed to the hash: %s" % (name, pos, json.dumps(short)[:700], json.dumps(mdin)[:700]))
+        def brief(v):
+            if isinstance(v, list) and len(v) > 24:
+                return "(%d octets) %s ... %s" % (len(v), json.dumps(v[:10]), json.dumps(v[-10:]))
+            return json.dumps(v)
+        short = ", ".join("%s=%s" % (k, brief(v)) for k, v in bad.items() if k != "md")
+        mdin = "; ".join("algo %s, %s octets: %s" % (m.get("a"), m.get("n"), brief(m.get("in") if m.get("full") else m.get("head")))
+                         for m in bad.get("md", []))
+        what = ("%s: event #%d is not what PGPFrame.tla prescribes (hash input framing / hash function / use of the digest / "
+                "subpacket layout): %s\n    octets handed to the hash: %s" % (name, pos, short[:1500], mdin[:900]))
         res["viol"].append((event_key(bad), what, rp))
         if len(res["viol"]) >= 4:
             break
@@ -186,7 +199,7 @@ def apply_trace_result(ck, res):
     ck.cov["states"] += res["states"]
     ck.cov["transitions"] += res["transitions"]
     ck.add_traces(res["traces"])
-    seen = set()
+    seen = ck.__dict__.setdefault("_trace_keys", set())      # one VIOLATION per key and run
     for key, what, rp in res["viol"]:
         if key in seen:
             continue
@@ -213,7 +226,7 @@ def run(tier, seed):
     kinds = {}
     for e in events:
         kinds[e["e"]] = kinds.get(e["e"], 0) + 1
-    for k in ("Fpr", "KeyId", "SigHash", "S2K", "KDF", "SigPrep"):
+    for k in ("Fpr", "KeyId", "SigHash", "S2K", "KDF", "SigPrep", "SecEnc"):
         if not kinds.get(k):
             raise vlib.Infra("no %s event recorded (vacuous trace)" % k)
     nchunk = 4 if quick else 8
@@ -252,7 +265,7 @@ def run(tier, seed):
     # ---- A: the real code on every case (s2kcount hashes 1.6 GB and runs beside the rest)
     groups = {"s2k": [], "r64b": [], "rest": []}
     for f, cs in results.items():
-        groups["s2k" if f == "s2kcount" else "r64b" if f == "r64b" else "rest"] += cs
+        groups["s2k" if f == "s2kcount" else "r64b" if f in ("r64b", "r64r", "lenx", "mpix") else "rest"] += cs
     with cf.ThreadPoolExecutor(max_workers=3) as ex:
         gots = dict(zip(groups, ex.map(lambda n: run_cases(exe, groups[n], n), groups)))
     vlib.log("driver done at %.0fs" % (time.time() - ck.t0))
